@@ -13,6 +13,7 @@ import (
 	"pgregory.net/rapid"
 
 	"verif/harness/internal/ev"
+	"verif/harness/internal/gen"
 	"verif/harness/internal/mptkit"
 	"verif/harness/internal/refmpt"
 )
@@ -53,11 +54,11 @@ func genHistory(rt *rapid.T, target map[string][]byte, decoys []string, label st
 	var h []hop
 	n := 0
 	if len(keys) > 0 {
-		n = rapid.IntRange(0, 3*len(keys)).Draw(rt, label+"_n")
+		n = gen.Uniform(rt, 0, 3*len(keys), label+"_n")
 	}
 	for i := 0; i < n; i++ {
-		k := rapid.SampledFrom(keys).Draw(rt, label+"_key")
-		if rapid.IntRange(0, 2).Draw(rt, label+"_del") == 0 {
+		k := gen.Pick(rt, keys, label+"_key")
+		if gen.Chance(rt, 35, label+"_del") {
 			if _, ok := state[k]; ok {
 				h = append(h, hop{Kind: "del", Path: k})
 				delete(state, k)
@@ -135,7 +136,7 @@ func apply(rt *rapid.T, kind string, version int64, h []hop) buildResult {
 }
 
 func genContent(rt *rapid.T, maxPairs int) (map[string][]byte, []string) {
-	n := rapid.IntRange(0, maxPairs).Draw(rt, "npairs")
+	n := gen.Uniform(rt, 0, maxPairs, "npairs")
 	maxBytes := rapid.SampledFrom([]int{2, 3, 4}).Draw(rt, "maxBytes")
 	target := map[string][]byte{}
 	var used []string
@@ -147,7 +148,7 @@ func genContent(rt *rapid.T, maxPairs int) (map[string][]byte, []string) {
 		used = append(used, p)
 		target[p] = mptkit.GenValue(rt, "tv")
 	}
-	nd := rapid.IntRange(0, 4).Draw(rt, "ndecoys")
+	nd := gen.Uniform(rt, 0, 4, "ndecoys")
 	var decoys []string
 	for i := 0; i < nd; i++ {
 		p := mptkit.GenPath(rt, used, maxBytes, "dp")
@@ -311,8 +312,9 @@ func TestInjective(t *testing.T) {
 
 // Constructed type-confusion pairs: the node hash does not cover the node type,
 // so bodies of different node kinds can coincide.
-//   A = two keys under different first nibbles (root is a value-less branch whose
-//       first two child slots are empty), B = { "" -> branch body without its leading "::" }.
+//
+//	A = two keys under different first nibbles (root is a value-less branch whose
+//	    first two child slots are empty), B = { "" -> branch body without its leading "::" }.
 func confusionPair(k1, k2 string, v1, v2 []byte, version int64) (map[string][]byte, map[string][]byte) {
 	a := map[string][]byte{k1: v1, k2: v2}
 	built := refmpt.Build(a, version)
